@@ -81,7 +81,7 @@ def residual_signature(code, spec, roles):
 
 def check_kernel(led, it, func_label, results, spec_entry, num, row0, col0, m, n, dofs_emitted_ok=None,
                  expect_reads=None, allow_guard=True, replay=None, capacity_factor=None, loop_roles=None,
-                 alt_specs=None, extra_index_atoms=()):
+                 alt_specs=None, extra_index_atoms=(), collect=None):
     """results: it.explore output of the kernel call.  spec_entry(p, q, I, J, Kk, L) -> P"""
     emit_paths = 0
     for path, out in results:
@@ -125,6 +125,9 @@ def check_kernel(led, it, func_label, results, spec_entry, num, row0, col0, m, n
         if roles is None:
             continue
         I, J, Kk, L = roles
+        if collect is not None:
+            collect['values'] = dict(seen)
+            collect['roles'] = roles
         # slot determinacy: placement and guard depend on the four role indices, m, n and the offsets only
         allowed = {I, J, Kk, L} | set(m.atoms()) | set(n.atoms()) | set(row0.atoms()) | set(col0.atoms())
         dep = set()
